@@ -690,7 +690,7 @@ theorem commit_allClean (H : Bytes → Bytes) (t : WT) (collapse : Int) (hu : Di
   simp only at hu hp
   by_cases hd : root.dirty = false
   · simp only [commit, hd, Bool.not_false, if_true]
-    exact allClean_of_clean hu hp hd
+    split <;> exact allClean_of_clean hu hp hd
   · have hd' : root.dirty = true := by simpa using hd
     cases root with
     | nil => simp [WN.dirty] at hd'
